@@ -519,7 +519,7 @@ Proof.
   assert (Hs : forall m, In m (succs r) -> lookup t m = lookup t' m).
   { intros m Hm. apply H. exists m. split; auto. apply reach_refl. }
   pose proof (linearise_fuel_proof t r) as F1. pose proof (linearise_fuel_proof t' r) as F2.
-  unfold linearise in *. rewrite <- (all_defined_ext t t' (succs r) Hs).
+  unfold linearise in *. rewrite <- (all_defined_ext t t' (succs r) Hs) in *.
   destruct (all_defined t (succs r)); auto.
   set (F := Nat.max (lin_fuel t) (lin_fuel t')).
   assert (A : forall tt, (lin_fuel tt <= F)%nat ->
@@ -527,7 +527,7 @@ Proof.
             lin_list (lin_cls tt (lin_fuel tt) []) [] (succs r) = lin_list (lin_cls tt F []) [] (succs r)).
   { intros tt Hle Hn. symmetry. eapply lin_list_mono; [|reflexivity|exact Hn].
     intros acc x R _ Hr Hne. eapply lin_cls_mono; eauto. }
-  rewrite (A t) by (auto; subst F; lia). rewrite (A t') by (auto; subst F; lia).
+  rewrite (A t); [|subst F; lia|exact F1]. rewrite (A t'); [|subst F; lia|exact F2].
   apply lin_list_ext. intros acc x Hx. apply lin_cls_agree.
   intros a Ha. apply H. exists x. auto.
 Qed.
@@ -545,4 +545,538 @@ Proof.
   destruct (linearise t r) as [l|e] eqn:E; auto.
   rewrite (lookup_all_agree t t' l); auto.
   intros a Ha. apply H. eapply linearise_sound_proof; eauto.
+Qed.
+
+(* ------------------------------------------------------------------ the merge loop *)
+Lemma nth_zipd {A} (f : A -> A -> A) (d : A) : f d d = d ->
+  forall a b i, nth i (zipd f d a b) d = f (nth i a d) (nth i b d).
+Proof.
+  intros Hd a. induction a as [|x a IH]; intros b i.
+  - cbn [zipd]. revert i. induction b as [|y b IHb]; intros i.
+    + destruct i; cbn; auto.
+    + destruct i; cbn; auto. rewrite IHb. destruct i; auto.
+  - destruct b as [|y b]; cbn [zipd].
+    + destruct i; cbn [nth]; auto. rewrite IH. destruct i; auto.
+    + destruct i; cbn [nth]; auto.
+Qed.
+
+Lemma first_some_cons {A} (o : option A) l : first_some (o :: l) = orelse o (first_some l).
+Proof. reflexivity. Qed.
+
+Lemma orelse_assoc {A} (a b c : option A) : orelse (orelse a b) c = orelse a (orelse b c).
+Proof. destruct a; reflexivity. Qed.
+
+Lemma dict_get_set d k v k' :
+  dict_get (dict_set d k v) k' = if str_eqb k k' then Some v else dict_get d k'.
+Proof.
+  induction d as [|[k0 v0] d IH]; cbn.
+  - reflexivity.
+  - destruct (str_eqb k0 k) eqn:E0; cbn.
+    + apply str_eqb_eq in E0. subst k0. destruct (str_eqb k k'); reflexivity.
+    + destruct (str_eqb k0 k') eqn:E1.
+      * apply str_eqb_eq in E1. subst k0. apply str_eqb_neq in E0.
+        assert (str_eqb k k' = false) as -> by (apply str_eqb_neq; congruence). reflexivity.
+      * exact IH.
+Qed.
+
+Definition dict_wf (d : dict) : Prop := NoDup (map fst d).      (* Python dict: keys are unique *)
+
+Lemma dict_get_None d k : ~ In k (map fst d) -> dict_get d k = None.
+Proof.
+  induction d as [|[k0 v0] d IH]; cbn; intros H; auto.
+  destruct (str_eqb k0 k) eqn:E.
+  - apply str_eqb_eq in E. exfalso. apply H. now left.
+  - apply IH. intros I. apply H. now right.
+Qed.
+
+Lemma dict_get_snoc (l : dict) k1 v1 kk :
+  dict_get (l ++ [(k1, v1)]) kk = orelse (dict_get l kk) (if str_eqb k1 kk then Some v1 else None).
+Proof. induction l as [|[a b] l IHl]; cbn; auto. destruct (str_eqb a kk); auto. Qed.
+
+Lemma dict_get_rev d k : dict_wf d -> dict_get (rev d) k = dict_get d k.
+Proof.
+  unfold dict_wf. induction d as [|[k0 v0] d IH]; cbn [rev map fst]; intros H; auto.
+  inversion H; subst. rewrite dict_get_snoc, IH by auto. cbn [dict_get].
+  destruct (str_eqb k0 k) eqn:E.
+  - apply str_eqb_eq in E. subst k0. now rewrite dict_get_None.
+  - destruct (dict_get d k); reflexivity.
+Qed.
+
+Lemma in_keys_set d k v x : In x (map fst (dict_set d k v)) -> In x (map fst d) \/ x = k.
+Proof.
+  induction d as [|[k0 v0] d IH]; cbn.
+  - intros [<-|[]]. now right.
+  - destruct (str_eqb k0 k); cbn.
+    + intros [<-|H]; auto.
+    + intros [<-|H]; auto. destruct (IH H); auto.
+Qed.
+
+Lemma dict_set_wf d k v : dict_wf d -> dict_wf (dict_set d k v).
+Proof.
+  unfold dict_wf. induction d as [|[k0 v0] d IH]; cbn; intros H.
+  - constructor; [intros []|constructor].
+  - inversion H; subst. destruct (str_eqb k0 k) eqn:E; cbn.
+    + constructor; auto.
+    + constructor; auto. intros I. apply in_keys_set in I. destruct I as [I| ->]; auto.
+      rewrite str_eqb_refl in E. discriminate.
+Qed.
+
+Lemma dict_update_wf upd : forall base, dict_wf base -> dict_wf (dict_update base upd).
+Proof.
+  unfold dict_update. induction upd as [|[k v] u IH]; cbn; intros base H; auto.
+  apply IH. now apply dict_set_wf.
+Qed.
+
+(* tmp = base.copy(); tmp.update(upd): the entry of [upd] wins *)
+Lemma dict_get_update upd base k : dict_wf upd ->
+  dict_get (dict_update base upd) k = orelse (dict_get upd k) (dict_get base k).
+Proof.
+  intros W. rewrite <- (dict_get_rev upd k W). clear W. unfold dict_update. revert base.
+  induction upd as [|[k0 v0] u IH]; intros base; cbn [fold_left rev]; auto.
+  rewrite IH. cbn [fst snd]. rewrite dict_get_set, dict_get_snoc, orelse_assoc.
+  destruct (str_eqb k0 k); reflexivity.
+Qed.
+
+(* ------------------------------------------------------------------ sets *)
+Lemma str_ltb_false_eq x y : str_ltb x y = false -> str_ltb y x = false -> x = y.
+Proof.
+  intros H1 H2. destruct (str_ltb_total x y) as [H | [H | H]]; congruence.
+Qed.
+
+Lemma In_set_insert x l z : In z (set_insert x l) <-> z = x \/ In z l.
+Proof.
+  induction l as [|y l IH]; cbn.
+  - intuition auto.
+  - destruct (str_ltb x y) eqn:E1; cbn.
+    + intuition auto.
+    + destruct (str_ltb y x) eqn:E2; cbn.
+      * rewrite IH. intuition auto.
+      * assert (x = y) by (apply str_ltb_false_eq; auto). subst y. intuition auto.
+Qed.
+
+Lemma In_set_norm l z : In z (set_norm l) <-> In z l.
+Proof.
+  induction l as [|x l IH]; cbn; [tauto|]. rewrite In_set_insert, IH. intuition auto.
+Qed.
+
+Definition lt_s (a b : str) : Prop := str_ltb a b = true.
+Definition sset (l : list str) : Prop := Sorted.StronglySorted lt_s l.
+
+Lemma set_insert_sorted x l : sset l -> sset (set_insert x l).
+Proof.
+  unfold sset. induction l as [|y l IH]; cbn; intros H.
+  - repeat constructor.
+  - inversion H as [|? ? Hs Hf]; subst. destruct (str_ltb x y) eqn:E1.
+    + constructor; auto. constructor; auto.
+      eapply Forall_impl; [|exact Hf]. intros a Ha. eapply str_ltb_trans; eauto.
+    + destruct (str_ltb y x) eqn:E2; auto.
+      constructor; auto. apply Forall_forall. intros z Hz. apply In_set_insert in Hz.
+      destruct Hz as [-> | Hz]; auto. rewrite Forall_forall in Hf. auto.
+Qed.
+
+Lemma set_norm_sorted l : sset (set_norm l).
+Proof. induction l; cbn; [constructor | now apply set_insert_sorted]. Qed.
+
+Lemma sset_ext a : forall b, sset a -> sset b -> (forall x, In x a <-> In x b) -> a = b.
+Proof.
+  unfold sset. induction a as [|x a IH]; intros [|y b] Ha Hb H; auto.
+  - exfalso. apply (H y). now left.
+  - exfalso. apply (H x). now left.
+  - inversion Ha as [|? ? Sa Fa]; inversion Hb as [|? ? Sb Fb]; subst.
+    rewrite Forall_forall in Fa, Fb.
+    assert (x = y).
+    { destruct (proj1 (H x) (or_introl eq_refl)) as [E|I]; auto.
+      destruct (proj2 (H y) (or_introl eq_refl)) as [E|I']; auto.
+      pose proof (Fb _ I) as L1. pose proof (Fa _ I') as L2. unfold lt_s in *.
+      rewrite (str_ltb_asym _ _ L1) in L2. discriminate. }
+    subst y. f_equal. apply IH; auto. intros z. split; intros Hz.
+    + destruct (proj1 (H z) (or_intror Hz)) as [E|I]; auto. subst z.
+      pose proof (Fa _ Hz) as L. unfold lt_s in L. rewrite str_ltb_irrefl in L. discriminate.
+    + destruct (proj2 (H z) (or_intror Hz)) as [E|I]; auto. subst z.
+      pose proof (Fb _ Hz) as L. unfold lt_s in L. rewrite str_ltb_irrefl in L. discriminate.
+Qed.
+
+Lemma set_norm_canonical_proof a b : (forall x, In x a <-> In x b) -> set_norm a = set_norm b.
+Proof.
+  intros H. apply sset_ext; try apply set_norm_sorted. intros x. rewrite !In_set_norm. apply H.
+Qed.
+
+(* ------------------------------------------------------------------ the loop as a fold *)
+Section Fold.
+(* [ms] in loop order (most derived class first) *)
+Fixpoint concat_map {A B} (f : A -> list B) (l : list A) : list B :=
+  match l with [] => [] | x :: r => f x ++ concat_map f r end.
+
+Lemma fold_sources ms : forall s,
+  m_sources (fold_left merge_step ms s) = m_sources s ++ concat_map m_sources ms.
+Proof. induction ms as [|m ms IH]; intros s; cbn; [now rewrite app_nil_r | rewrite IH; cbn; now rewrite app_assoc]. Qed.
+
+Lemma concat_map_snoc {A B} (f : A -> list B) l x : concat_map f (l ++ [x]) = concat_map f l ++ f x.
+Proof. induction l; cbn; [now rewrite app_nil_r | rewrite IHl; now rewrite app_assoc]. Qed.
+
+Lemma fold_deps ms : forall s,
+  m_deps (fold_left merge_step ms s) = concat_map m_deps (rev ms) ++ m_deps s.
+Proof.
+  induction ms as [|m ms IH]; intros s; cbn; auto.
+  rewrite IH, concat_map_snoc. cbn. now rewrite app_assoc.
+Qed.
+
+Lemma fold_varSelf ms : forall s,
+  m_varSelf (fold_left merge_step ms s) = concat_map m_varSelf (rev ms) ++ m_varSelf s.
+Proof.
+  induction ms as [|m ms IH]; intros s; cbn; auto.
+  rewrite IH, concat_map_snoc. cbn. now rewrite app_assoc.
+Qed.
+
+Lemma fold_varPrivate ms : forall s,
+  m_varPrivate (fold_left merge_step ms s) = concat_map m_varPrivate (rev ms) ++ m_varPrivate s.
+Proof.
+  induction ms as [|m ms IH]; intros s; cbn; auto.
+  rewrite IH, concat_map_snoc. cbn. now rewrite app_assoc.
+Qed.
+
+Lemma fold_tools ms i : forall s,
+  nth i (m_tools (fold_left merge_step ms s)) [] =
+  nth i (m_tools s) [] ++ concat_map (fun m => nth i (m_tools m) []) ms.
+Proof.
+  induction ms as [|m ms IH]; intros s; cbn [fold_left concat_map]; [now rewrite app_nil_r|].
+  rewrite IH. cbn [merge_step m_tools]. rewrite (nth_zipd (@app str) []) by reflexivity. now rewrite app_assoc.
+Qed.
+
+Lemma fold_sets ms i : forall s,
+  nth i (m_sets (fold_left merge_step ms s)) [] =
+  nth i (m_sets s) [] ++ concat_map (fun m => nth i (m_sets m) []) ms.
+Proof.
+  induction ms as [|m ms IH]; intros s; cbn [fold_left concat_map]; [now rewrite app_nil_r|].
+  rewrite IH. cbn [merge_step m_sets]. rewrite (nth_zipd (@app str) []) by reflexivity. now rewrite app_assoc.
+Qed.
+
+Lemma fold_scalars ms i : forall s,
+  nth i (m_scalars (fold_left merge_step ms s)) None =
+  first_some (nth i (m_scalars s) None :: map (fun m => nth i (m_scalars m) None) ms).
+Proof.
+  induction ms as [|m ms IH]; intros s; cbn [fold_left map].
+  - cbn. now destruct (nth i (m_scalars s) None).
+  - rewrite IH. cbn [merge_step m_scalars]. rewrite (nth_zipd orelse None) by reflexivity.
+    rewrite !first_some_cons. now rewrite orelse_assoc.
+Qed.
+
+Definition dicts_wf (m : mstate) : Prop := forall i, dict_wf (nth i (m_dicts m) []).
+
+Lemma merge_step_wf s c : dicts_wf c -> dicts_wf (merge_step s c).
+Proof.
+  intros Hc i. cbn [merge_step m_dicts]. rewrite (nth_zipd dict_update []) by reflexivity.
+  apply dict_update_wf. apply Hc.
+Qed.
+
+Lemma fold_dicts ms i k : forall s, dicts_wf s -> Forall dicts_wf ms ->
+  dict_get (nth i (m_dicts (fold_left merge_step ms s)) []) k =
+  first_some (dict_get (nth i (m_dicts s) []) k :: map (fun m => dict_get (nth i (m_dicts m) []) k) ms).
+Proof.
+  induction ms as [|m ms IH]; intros s Ws Wm; cbn [fold_left map].
+  - cbn. now destruct (dict_get (nth i (m_dicts s) []) k).
+  - inversion Wm; subst. rewrite IH; auto.
+    2:{ now apply merge_step_wf. }
+    cbn [merge_step m_dicts]. rewrite (nth_zipd dict_update []) by reflexivity.
+    rewrite dict_get_update by apply Ws.
+    rewrite !first_some_cons. now rewrite orelse_assoc.
+Qed.
+End Fold.
+
+Lemma In_concat_map {A B} (f : A -> list B) l y : In y (concat_map f l) <-> exists x, In x l /\ In y (f x).
+Proof.
+  induction l as [|x l IH]; cbn.
+  - split; [tauto | intros [x [[] _]]].
+  - rewrite in_app_iff, IH. split.
+    + intros [H | [x' [H1 H2]]]; eauto.
+    + intros [x' [[<- | H1] H2]]; eauto.
+Qed.
+
+Lemma concat_map_map {A B C} (g : A -> B) (f : B -> list C) l : concat_map f (map g l) = concat_map (fun x => f (g x)) l.
+Proof. induction l; cbn; congruence. Qed.
+
+(* ------------------------------------------------------------------ lookup_all *)
+Lemma lookup_all_app t a b : lookup_all t (a ++ b) = lookup_all t a ++ lookup_all t b.
+Proof. unfold lookup_all. apply flat_map_app. Qed.
+
+Lemma lookup_all_rev t l : lookup_all t (rev l) = rev (lookup_all t l).
+Proof.
+  induction l as [|x l IH]; cbn [rev]; auto.
+  rewrite lookup_all_app, IH. cbn. destruct (lookup t x); cbn; [reflexivity | now rewrite app_nil_r].
+Qed.
+
+Lemma In_lookup_all t l c : In c (lookup_all t l) <-> exists a, In a l /\ lookup t a = Some c.
+Proof.
+  unfold lookup_all. rewrite in_flat_map. split; intros [a [Ha H]]; exists a; split; auto.
+  - destruct (lookup t a); [destruct H as [<-|[]]; auto | destruct H].
+  - rewrite H. now left.
+Qed.
+
+(* ------------------------------------------------------------------ override laws for [resolve] *)
+Definition cls_wf (c : cls) : Prop := forall i, dict_wf (nth i (c_dicts c) []).
+Definition classes_of (t : table) (x : resolved) : list cls := lookup_all t (rs_order x).
+
+Lemma resolve_inv t glue r x :
+  resolve t glue r = Ok x ->
+  exists l, linearise t r = Ok l /\ rs_order x = l /\
+            x = assemble glue l (lookup_all t l) r (merge_all (lookup_all t l) r).
+Proof.
+  unfold resolve. destruct (linearise t r) as [l|e]; intros H; inversion H; subst.
+  exists l. cbn. auto.
+Qed.
+
+Lemma m_init_dicts_wf c : cls_wf c -> dicts_wf (m_init c).
+Proof. intros H i. apply H. Qed.
+
+Lemma nth_map_set_norm i l : nth i (map set_norm l) [] = set_norm (nth i l []).
+Proof. change (@nil str) with (set_norm []) at 1. apply map_nth. Qed.
+
+(* dict-like keys: the recipe's own entry wins, then the classes from the most derived to the base *)
+Lemma resolve_dict_law_proof t glue r x i k :
+  resolve t glue r = Ok x -> cls_wf r -> (forall c, In c (classes_of t x) -> cls_wf c) ->
+  dict_get (nth i (m_dicts (rs_m x)) []) k =
+  first_some (dict_get (nth i (c_dicts r) []) k ::
+              map (fun c => dict_get (nth i (c_dicts c) []) k) (rev (classes_of t x))).
+Proof.
+  intros H Wr Wc. destruct (resolve_inv _ _ _ _ H) as [l [_ [Ho ->]]]. unfold classes_of in *. cbn in Wc |- *.
+  unfold merge_all. rewrite fold_dicts.
+  - cbn [m_init m_dicts]. f_equal. rewrite map_map. reflexivity.
+  - now apply m_init_dicts_wf.
+  - apply Forall_forall. intros m Hm. apply in_map_iff in Hm. destruct Hm as [c [<- Hc]].
+    apply m_init_dicts_wf. apply Wc. now apply in_rev.
+Qed.
+
+Lemma first_some_snoc {A} (L : list (option A)) d : orelse (first_some L) d = first_some (L ++ [d]).
+Proof.
+  induction L as [|o L IH]; cbn [first_some fold_right app].
+  - now destruct d.
+  - fold (first_some L). fold (first_some (L ++ [d])). rewrite <- IH. apply orelse_assoc.
+Qed.
+
+Lemma resolve_scalar_law_proof t glue r x i :
+  resolve t glue r = Ok x ->
+  nth i (m_scalars (rs_m x)) None =
+  first_some (nth i (c_scalars r) None ::
+              map (fun c => nth i (c_scalars c) None) (rev (classes_of t x)) ++ [nth i scalar_defaults None]).
+Proof.
+  intros H. destruct (resolve_inv _ _ _ _ H) as [l [_ [Ho ->]]]. unfold classes_of.
+  cbn [rs_m assemble finish m_scalars rs_order].
+  rewrite (nth_zipd orelse None) by reflexivity. unfold merge_all. rewrite fold_scalars.
+  cbn [m_init m_scalars]. rewrite map_map. rewrite app_comm_cons. apply first_some_snoc.
+Qed.
+
+(* set-like keys: union over the recipe and all ancestors *)
+Lemma resolve_set_law_proof t glue r x i v :
+  resolve t glue r = Ok x ->
+  (In v (nth i (m_sets (rs_m x)) []) <->
+   In v (nth i (c_sets r) []) \/ exists a c, In a (rs_order x) /\ lookup t a = Some c /\ In v (nth i (c_sets c) [])).
+Proof.
+  intros H. destruct (resolve_inv _ _ _ _ H) as [l [_ [Ho ->]]]. cbn.
+  rewrite nth_map_set_norm, In_set_norm. unfold merge_all. rewrite fold_sets, in_app_iff.
+  cbn [m_init m_sets]. rewrite concat_map_map, In_concat_map. split.
+  - intros [A | [c [Hc Hv]]]; auto. right. apply in_rev in Hc. apply In_lookup_all in Hc.
+    destruct Hc as [a [Ha Hl]]. exists a, c. auto.
+  - intros [A | [a [c [Ha [Hl Hv]]]]]; auto. right. exists c. split; auto.
+    apply in_rev. rewrite rev_involutive. apply In_lookup_all. eauto.
+Qed.
+
+Lemma resolve_set_canonical_proof t glue r x i :
+  resolve t glue r = Ok x -> sset (nth i (m_sets (rs_m x)) []).
+Proof.
+  intros H. destruct (resolve_inv _ _ _ _ H) as [l [_ [Ho ->]]]. cbn.
+  rewrite nth_map_set_norm. apply set_norm_sorted.
+Qed.
+
+(* tool lists: own entries, then those of the classes from the most derived to the base *)
+Lemma resolve_tools_law_proof t glue r x i :
+  resolve t glue r = Ok x ->
+  nth i (m_tools (rs_m x)) [] =
+  nth i (c_tools r) [] ++ concat_map (fun c => nth i (c_tools c) []) (rev (classes_of t x)).
+Proof.
+  intros H. destruct (resolve_inv _ _ _ _ H) as [l [_ [Ho ->]]]. unfold classes_of. cbn.
+  unfold merge_all. rewrite fold_tools. cbn [m_init m_tools]. now rewrite concat_map_map.
+Qed.
+
+(* dependencies and variable layers: classes in linearisation order, then the recipe *)
+Lemma resolve_deps_law_proof t glue r x :
+  resolve t glue r = Ok x ->
+  m_deps (rs_m x) = concat_map c_deps (classes_of t x) ++ c_deps r /\
+  m_varSelf (rs_m x) = concat_map (fun c => dict_nonempty (c_varSelf c)) (classes_of t x) ++ dict_nonempty (c_varSelf r) /\
+  m_varPrivate (rs_m x) = concat_map (fun c => dict_nonempty (c_varPrivate c)) (classes_of t x) ++ dict_nonempty (c_varPrivate r) /\
+  m_sources (rs_m x) = c_sources r ++ concat_map c_sources (rev (classes_of t x)).
+Proof.
+  intros H. destruct (resolve_inv _ _ _ _ H) as [l [_ [Ho ->]]]. unfold classes_of. cbn.
+  unfold merge_all. rewrite fold_deps, fold_varSelf, fold_varPrivate, fold_sources.
+  rewrite <- !map_rev, rev_involutive, !concat_map_map. cbn [m_init m_deps m_varSelf m_varPrivate m_sources].
+  auto.
+Qed.
+
+(* scripts: fragments of the ancestors in linearisation order, then the recipe's *)
+Lemma resolve_scripts_law_proof t glue r x :
+  resolve t glue r = Ok x ->
+  let all := classes_of t x ++ [r] in
+  let lg := rs_lang x in
+  rs_lang x = sel_lang all r /\
+  rs_checkout x = merge_scripts (glue lg) (map (fun c => sel lg (c_checkout c)) all) /\
+  rs_build x = merge_scripts (glue lg) (map (fun c => sel lg (c_build c)) all) /\
+  (snd (fst (merge_scripts (glue lg) (map (fun c => sel lg (c_package c)) all))) <> None ->
+   rs_package x = merge_scripts (glue lg) (map (fun c => sel lg (c_package c)) all)) /\
+  rs_scms x = flat_map c_scms all /\ rs_asserts x = flat_map c_asserts all /\
+  rs_codet x = forallb (co_det lg) all.
+Proof.
+  intros H. destruct (resolve_inv _ _ _ _ H) as [l [_ [Ho ->]]]. unfold classes_of.
+  cbn [rs_order rs_lang rs_checkout rs_build rs_package rs_scms rs_asserts rs_codet assemble].
+  repeat split; auto.
+  - intros N. destruct (snd (fst (merge_scripts _ _))); [reflexivity | contradiction].
+  - generalize (co_det (sel_lang (lookup_all t l ++ [r]) r)). intros f.
+    induction (lookup_all t l ++ [r]) as [|c L IH]; cbn [map forallb]; congruence.
+Qed.
+
+Lemma merge_scripts_main_proof glue fs :
+  snd (fst (merge_scripts glue fs)) =
+  join_scripts glue (map (fun f => fst (f_main f)) fs ++ map (fun f => fst (f_final f)) (rev fs)).
+Proof. reflexivity. Qed.
+
+(* ------------------------------------------------------------------ the loop in place *)
+Lemma oid_eqb_eq a b : oid_eqb a b = true <-> a = b.
+Proof.
+  destruct a, b; cbn; split; intros H; try discriminate; try (inversion H; subst; apply str_eqb_refl).
+  - apply str_eqb_eq in H. congruence.
+  - apply str_eqb_eq in H. congruence.
+Qed.
+
+Lemma oid_dec (a b : oid) : a = b \/ a <> b.
+Proof.
+  destruct (oid_eqb a b) eqn:E.
+  - left. now apply oid_eqb_eq.
+  - right. intros H. apply oid_eqb_eq in H. congruence.
+Qed.
+
+Lemma hget_hset_same h o m : hget (hset h o m) o = m.
+Proof.
+  induction h as [|[k m'] h IH]; cbn.
+  - assert (oid_eqb o o = true) as -> by now apply oid_eqb_eq. reflexivity.
+  - destruct (oid_eqb k o) eqn:E; cbn; rewrite E; auto.
+Qed.
+
+Lemma hget_hset_other h o m o' : o <> o' -> hget (hset h o m) o' = hget h o'.
+Proof.
+  intros N. induction h as [|[k m'] h IH]; cbn.
+  - destruct (oid_eqb o o') eqn:E; auto. apply oid_eqb_eq in E. contradiction.
+  - destruct (oid_eqb k o) eqn:E; cbn.
+    + apply oid_eqb_eq in E. subst k. destruct (oid_eqb o o') eqn:E'; auto.
+      apply oid_eqb_eq in E'. contradiction.
+    + destruct (oid_eqb k o'); auto.
+Qed.
+
+Definition inplace_step (self : oid) (h : heap) (n : name) : heap :=
+  hset h self (merge_step (hget h self) (hget h (OC n))).
+
+Lemma inplace_fold self ns : (forall n, self <> OC n) -> forall h,
+  hget (fold_left (inplace_step self) ns h) self
+    = fold_left merge_step (map (fun n => hget h (OC n)) ns) (hget h self) /\
+  (forall o, o <> self -> hget (fold_left (inplace_step self) ns h) o = hget h o).
+Proof.
+  intros Hs. induction ns as [|n ns IH]; intros h; cbn [fold_left map]; auto.
+  destruct (IH (inplace_step self h n)) as [I1 I2]. split.
+  - rewrite I1. unfold inplace_step at 2. rewrite hget_hset_same. f_equal.
+    apply map_ext. intros m. unfold inplace_step. apply hget_hset_other. apply Hs.
+  - intros o Ho. rewrite I2 by auto. unfold inplace_step. apply hget_hset_other. auto.
+Qed.
+
+Definition heap_init (t : table) (h : heap) : Prop :=
+  forall n c, lookup t n = Some c -> hget h (OC n) = m_init c.
+
+Lemma heap_of_init t rs : heap_init t (heap_of t rs).
+Proof.
+  intros n c. unfold heap_of. induction t as [|[k c'] t IH]; cbn; intros H; try discriminate.
+  destruct (str_eqb k n); [congruence | auto].
+Qed.
+
+Lemma heap_of_recipe t rs n r : lookup rs n = Some r -> hget (heap_of t rs) (OR n) = m_init r.
+Proof.
+  unfold heap_of. induction t as [|[k c'] t IH]; cbn; auto.
+  induction rs as [|[k r'] rs IH]; cbn; intros H; try discriminate.
+  destruct (str_eqb k n); [congruence | auto].
+Qed.
+
+Lemma map_hget_classes t h l :
+  heap_init t h -> (forall a, In a l -> lookup t a <> None) ->
+  map (fun n => hget h (OC n)) l = map m_init (lookup_all t l).
+Proof.
+  intros Hi. induction l as [|x l IH]; cbn; intros D; auto.
+  destruct (lookup t x) as [c|] eqn:E.
+  - cbn. rewrite (Hi x c E). f_equal. apply IH. intros a Ha. apply D. now right.
+  - exfalso. apply (D x); auto.
+Qed.
+
+Lemma merge_inplace_spec t h rn r l :
+  heap_init t h -> hget h (OR rn) = m_init r -> linearise t r = Ok l ->
+  hget (merge_inplace h (OR rn) l) (OR rn) = merge_all (lookup_all t l) r /\
+  (forall o, o <> OR rn -> hget (merge_inplace h (OR rn) l) o = hget h o).
+Proof.
+  intros Hi Hr Hl. unfold merge_inplace.
+  destruct (inplace_fold (OR rn) (rev l) (fun n => ltac:(discriminate)) h) as [I1 I2]. split; auto.
+  change (fun (h0 : heap) (n : name) => hset h0 (OR rn) (merge_step (hget h0 (OR rn)) (hget h0 (OC n))))
+    with (inplace_step (OR rn)).
+  rewrite I1, Hr. unfold merge_all. f_equal.
+  rewrite (map_hget_classes t h (rev l) Hi).
+  - now rewrite lookup_all_rev.
+  - intros a Ha. apply in_rev in Ha. eapply linearise_defined_proof; eauto.
+Qed.
+
+Lemma resolve_inplace_spec t glue h rn r :
+  heap_init t h -> hget h (OR rn) = m_init r ->
+  res_map fst (resolve_inplace t glue h rn r) = resolve t glue r /\
+  (forall x h', resolve_inplace t glue h rn r = Ok (x, h') ->
+     hget h' (OR rn) = merge_all (classes_of t x) r /\
+     (forall o, o <> OR rn -> hget h' o = hget h o)).
+Proof.
+  intros Hi Hr. unfold resolve_inplace, resolve. destruct (linearise t r) as [l|e] eqn:E; cbn.
+  - destruct (merge_inplace_spec t h rn r l Hi Hr E) as [M1 M2]. split.
+    + now rewrite M1.
+    + intros x h' H. inversion H; subst. unfold classes_of. cbn. auto.
+  - split; auto. intros x h' H. discriminate.
+Qed.
+
+(* resolving two recipes in either order: same results, same heap, classes untouched *)
+Lemma resolve_inplace_commute_proof t glue h n1 r1 n2 r2 x1 h1 x2 h12 :
+  heap_init t h -> hget h (OR n1) = m_init r1 -> hget h (OR n2) = m_init r2 -> n1 <> n2 ->
+  resolve_inplace t glue h n1 r1 = Ok (x1, h1) ->
+  resolve_inplace t glue h1 n2 r2 = Ok (x2, h12) ->
+  resolve t glue r1 = Ok x1 /\ resolve t glue r2 = Ok x2 /\
+  exists h2 h21,
+    resolve_inplace t glue h n2 r2 = Ok (x2, h2) /\
+    resolve_inplace t glue h2 n1 r1 = Ok (x1, h21) /\
+    (forall o, hget h12 o = hget h21 o) /\
+    (forall n, hget h12 (OC n) = hget h (OC n)).
+Proof.
+  intros Hi H1 H2 Hn A B.
+  assert (N12 : OR n2 <> OR n1) by (intros Q; inversion Q; congruence).
+  assert (N21 : OR n1 <> OR n2) by (intros Q; inversion Q; congruence).
+  destruct (resolve_inplace_spec t glue h n1 r1 Hi H1) as [S1 F1].
+  destruct (F1 _ _ A) as [G1 Fr1].
+  assert (Hi1 : heap_init t h1). { intros n c Hc. rewrite Fr1 by discriminate. auto. }
+  assert (H2' : hget h1 (OR n2) = m_init r2) by (rewrite Fr1; auto).
+  destruct (resolve_inplace_spec t glue h1 n2 r2 Hi1 H2') as [S2 F2].
+  destruct (F2 _ _ B) as [G2 Fr2].
+  rewrite A in S1. rewrite B in S2. cbn in S1, S2.
+  (* the other order *)
+  destruct (resolve_inplace_spec t glue h n2 r2 Hi H2) as [S3 F3].
+  destruct (resolve_inplace t glue h n2 r2) as [[x2' h2]|e] eqn:C; cbn in S3; [|congruence].
+  assert (x2' = x2) by congruence. subst x2'.
+  destruct (F3 _ _ eq_refl) as [G3 Fr3].
+  assert (Hi2 : heap_init t h2). { intros n c Hc. rewrite Fr3 by discriminate. auto. }
+  assert (H1' : hget h2 (OR n1) = m_init r1) by (rewrite Fr3; auto).
+  destruct (resolve_inplace_spec t glue h2 n1 r1 Hi2 H1') as [S4 F4].
+  destruct (resolve_inplace t glue h2 n1 r1) as [[x1' h21]|e] eqn:D; cbn in S4; [|congruence].
+  assert (x1' = x1) by congruence. subst x1'.
+  destruct (F4 _ _ eq_refl) as [G4 Fr4].
+  repeat split; auto. exists h2, h21. repeat split; auto.
+  - intros o. destruct (oid_dec o (OR n2)) as [-> | O2].
+    + rewrite G2, Fr4, G3 by auto. reflexivity.
+    + rewrite Fr2 by auto. destruct (oid_dec o (OR n1)) as [-> | O1].
+      * rewrite G1, G4. reflexivity.
+      * rewrite Fr1, Fr4, Fr3 by auto. reflexivity.
+  - intros n. rewrite Fr2, Fr1 by discriminate. reflexivity.
 Qed.
